@@ -1,12 +1,18 @@
 /-
   compile_fragment_wf, part 2: `comp` (compileExpr / compileLogicalOpExprAux / compileBranchCondition, with
-  compileUnaryOpExpr(not), compileRelationalOpExpr(Aux), compileLogicalOpExpr, Propagate(K)MV) preserves the invariant.
-  One structural induction over the condition tree for the three modes at once.
+  compileUnaryOpExpr (not, -, #), compileArithmeticOpExpr (constant folding, RK operands), compileStringConcatOpExpr
+  (crange, the CONCAT-popping loop), compileRelationalOpExpr(Aux), compileLogicalOpExpr, Propagate(K)MV) preserves the
+  invariant.  One structural induction over the expression tree for the three modes at once.  The purely structural
+  facts (what the last instruction of an expression's code is: decides whether Propagate / the CONCAT loop / SetA pop)
+  are the C01 deepening's `Lowering.comp_frame` (`EF`); this file adds the invariant.
 -/
 import GLua.Proofs.CompileWfDefs
 
 namespace GLua.CompileWf
 open GLua.Compile GLua.MiniVM GLua.Lowering
+
+variable [NumStruct]
+set_option linter.unusedSectionVars false
 
 /-! ### small facts -/
 
@@ -36,7 +42,10 @@ def ExprPost (e : Cond) : Prop := ∀ (st : CState) (reg : Nat) (ec : ExpCtx),
     (comp e (.expr reg ec) st).inc = (if savereg ec reg < reg then 0 else 1) ∧
     savereg ec reg ≤ mr (comp e (.expr reg ec) st).st.code ∧
     NoSkipLast (comp e (.expr reg ec) st).st ∧
-    (isLeaf e = false → e.isLogical = false → LastOK (comp e (.expr reg ec) st).st)
+    -- a concatenation ends in ONE CONCAT over reg … reg + 1 + spine; before it the invariant holds (so the CONCAT may
+    -- be popped by an enclosing concatenation), the top operand register is counted, the code does not end in a CONCAT
+    (∀ l r, e = .concat l r → ∃ s', (comp e (.expr reg ec) st).st = emit s' (.concat (savereg ec reg) reg (reg + (1 + spine r))) ∧
+      Ext st s' ∧ reg + (1 + spine r) ≤ mr s'.code ∧ NoCat s'.code ∧ s'.code ≠ [])
 
 /-- `compileLogicalOpExprAux`: the code always ends in a JMP; before it the invariant holds (so the JMP may be
     popped); for the LAST operand of a value-context and/or chain (hasnext = false, both labels = endlabel) a final
@@ -51,6 +60,18 @@ def AuxPost (e : Cond) : Prop := ∀ (st : CState) (reg : Nat) (ec : ExpCtx) (th
 def BcPost (e : Cond) : Prop := ∀ (st : CState) (reg thenl elsel : Nat) (hasnext : Bool),
     Inv st → LocalsBelow st.regTop e → st.regTop ≤ reg → NoSkipLast st →
     Ext st (comp e (.bc reg thenl elsel hasnext) st).st ∧ NoSkipLast (comp e (.bc reg thenl elsel hasnext) st).st
+
+/-! ### LOADK of a pool constant (literal or folded) -/
+
+theorem loadK_post (k : Konst) (st : CState) (reg : Nat) (ec : ExpCtx) (hI : Inv st) :
+    Ext st (loadK k reg ec st).st ∧
+    (loadK k reg ec st).inc = (if savereg ec reg < reg then 0 else 1) ∧
+    savereg ec reg ≤ mr (loadK k reg ec st).st.code ∧
+    NoSkipLast (loadK k reg ec st).st := by
+  have hc := ext_constIndex k hI
+  refine ⟨hc.emit (i := .loadk (savereg ec reg) (constIndex st k).2) (constIndex_lt st k), rfl, ?_, noSkipLast_emit _ _ rfl⟩
+  show savereg ec reg ≤ mr (emit (constIndex st k).1 (.loadk (savereg ec reg) (constIndex st k).2)).code
+  simp only [mr_emit, maxregOf, Instr.argA]; omega
 
 /-! ### leaves -/
 
@@ -69,37 +90,20 @@ theorem leaf_post (e : Cond) (he : isLeaf e = true) (st : CState) (reg : Nat) (e
     exact ⟨ext_emit hI rfl, rfl, by simp only [leafExpr, mr_emit, maxregOf]; omega, noSkipLast_emit _ _ rfl⟩
   case loc r =>
     exact ⟨ext_emit hI (loc_le_mr hI hs), rfl, by simp only [leafExpr, mr_emit, maxregOf, Instr.argA]; omega, noSkipLast_emit _ _ rfl⟩
-  case num n =>
-    have hc := ext_constIndex (.num n) hI
-    have hf := constIndex_find st (.num n)
-    exact ⟨hc.emit hf.2, rfl, by simp only [leafExpr, mr_emit, maxregOf, Instr.argA]; omega, noSkipLast_emit _ _ rfl⟩
-  case str s =>
-    have hc := ext_constIndex (.str s) hI
-    have hf := constIndex_find st (.str s)
-    exact ⟨hc.emit hf.2, rfl, by simp only [leafExpr, mr_emit, maxregOf, Instr.argA]; omega, noSkipLast_emit _ _ rfl⟩
+  case num n => exact loadK_post _ st reg ec hI
+  case str s => exact loadK_post _ st reg ec hI
   case ev id =>
     have hc := ext_constIndex (gname id) hI
-    have hf := constIndex_find st (gname id)
-    exact ⟨hc.emit (by simp [IOK, hf.1]), rfl, by simp only [leafExpr, mr_emit, maxregOf, Instr.argA]; omega, noSkipLast_emit _ _ rfl⟩
+    have hf := constIndex_find st (gname id) rfl
+    exact ⟨hc.emit (by simp [IOK, hf]), rfl, by simp only [leafExpr, mr_emit, maxregOf, Instr.argA]; omega, noSkipLast_emit _ _ rfl⟩
 
 theorem exprPost_leaf (e : Cond) (he : isLeaf e = true) : ExprPost e := by
   intro st reg ec hI hs _ _
   rw [comp_leaf_expr e he]
   obtain ⟨h1, h2, h3, h4⟩ := leaf_post e he st reg ec hI hs
-  exact ⟨h1, h2, h3, h4, fun h => by simp [he] at h⟩
+  exact ⟨h1, h2, h3, h4, fun l r h => by subst h; simp [isLeaf] at he⟩
 
 /-! ### one operand with Propagate(K)MV -/
-
-/-- what `compileExprWith(K)MVPropagation` returns: (store, operand, next free register) -/
-def OpndPost (kmv : Bool) (e : Cond) : Prop := ∀ (st : CState) (reg : Nat),
-    Inv st → LocalsBelow st.regTop e → st.regTop ≤ reg →
-    Ext st (withPropagation kmv e.isLogical (comp e (.expr reg ecnone0) st) reg).1 ∧
-    RKR (withPropagation kmv e.isLogical (comp e (.expr reg ecnone0) st) reg).1.consts.length
-        (mr (withPropagation kmv e.isLogical (comp e (.expr reg ecnone0) st) reg).1.code)
-        (withPropagation kmv e.isLogical (comp e (.expr reg ecnone0) st) reg).2.1 ∧
-    (kmv = false → (withPropagation kmv e.isLogical (comp e (.expr reg ecnone0) st) reg).2.1 ≤
-        mr (withPropagation kmv e.isLogical (comp e (.expr reg ecnone0) st) reg).1.code) ∧
-    reg ≤ (withPropagation kmv e.isLogical (comp e (.expr reg ecnone0) st) reg).2.2
 
 theorem opnd_konst (kmv : Bool) (st : CState) (reg : Nat) (k : Konst) (hI : Inv st) (res : CState × Nat × Nat)
     (hres : res = if reg ≥ (constIndex st k).1.regTop ∧ kmv = true ∧ (constIndex st k).2 ≤ Generated.opMaxIndexRk
@@ -107,7 +111,7 @@ theorem opnd_konst (kmv : Bool) (st : CState) (reg : Nat) (k : Konst) (hI : Inv 
       else (emit (constIndex st k).1 (.loadk reg (constIndex st k).2), reg, reg + 1)) :
     Ext st res.1 ∧ RKR res.1.consts.length (mr res.1.code) res.2.1 ∧ (kmv = false → res.2.1 ≤ mr res.1.code) ∧ reg ≤ res.2.2 := by
   have hc := ext_constIndex k hI
-  have hf := constIndex_find st k
+  have hf := constIndex_lt st k
   subst hres
   split
   · rename_i h
@@ -116,7 +120,7 @@ theorem opnd_konst (kmv : Bool) (st : CState) (reg : Nat) (k : Konst) (hI : Inv 
     omega
   · have hle : reg ≤ mr (emit (constIndex st k).1 (.loadk reg (constIndex st k).2)).code := by
       simp only [mr_emit, maxregOf, Instr.argA]; omega
-    exact ⟨hc.emit hf.2, Or.inl hle, fun _ => hle, by simp⟩
+    exact ⟨hc.emit hf, Or.inl hle, fun _ => hle, by simp⟩
 
 /-- a leaf operand (stated for `Lowering.opnd`) -/
 theorem opnd_leaf_post (kmv : Bool) (e : Cond) (he : isLeaf e = true) (st : CState) (reg : Nat)
@@ -145,68 +149,161 @@ theorem opnd_leaf_post (kmv : Bool) (e : Cond) (he : isLeaf e = true) (st : CSta
   case ev id =>
     rw [opnd_ev]
     have hc := ext_constIndex (gname id) hI
-    have hf := constIndex_find st (gname id)
+    have hf := constIndex_find st (gname id) rfl
     have hle : reg ≤ mr (emit (constIndex st (gname id)).1 (.eval reg id)).code := by
       simp only [mr_emit, maxregOf, Instr.argA]; omega
-    exact ⟨hc.emit (by simp [IOK, hf.1]), Or.inl hle, fun _ => hle, by simp⟩
-  case num n => exact opnd_konst kmv st reg (.num n) hI _ (opnd_num kmv reg st n)
+    exact ⟨hc.emit (by simp [IOK, hf]), Or.inl hle, fun _ => hle, by simp⟩
+  case num n => exact opnd_konst kmv st reg _ hI _ (opnd_num kmv reg st n)
   case str s => exact opnd_konst kmv st reg (.str s) hI _ (opnd_str kmv reg st s)
 
-theorem opndPost_leaf (kmv : Bool) (e : Cond) (he : isLeaf e = true) : OpndPost kmv e := by
-  intro st reg hI hs htop
-  have : withPropagation kmv e.isLogical (comp e (.expr reg ecnone0) st) reg = opnd kmv e reg st := by
-    rw [comp_leaf_expr e he, isLogical_leaf e he]; rfl
-  rw [this]
-  exact opnd_leaf_post kmv e he st reg hI hs htop
+/-- ANY operand through `compileExprWith(K)MVPropagation` (`Lowering.opr`): a constant — literal or folded — becomes
+    an RK field or one LOADK, a local its own register, anything else is compiled into `reg`. -/
+theorem opr_post (kmv : Bool) (c : Cond) (hE : ExprPost c) (st : CState) (reg : Nat)
+    (hI : Inv st) (hs : LocalsBelow st.regTop c) (htop : st.regTop ≤ reg) :
+    Ext st (opr kmv c reg st).1 ∧
+    RKR (opr kmv c reg st).1.consts.length (mr (opr kmv c reg st).1.code) (opr kmv c reg st).2.1 ∧
+    (kmv = false → (opr kmv c reg st).2.1 ≤ mr (opr kmv c reg st).1.code) ∧
+    reg ≤ (opr kmv c reg st).2.2 := by
+  rcases opr_cases kmv c st reg ((comp_frame c).1 st reg ecnone0 htop) htop with ⟨k, _, h⟩ | ⟨r, hr, h⟩ | ⟨_, _, h⟩
+  · exact opnd_konst kmv st reg k hI _ h
+  · rw [h]
+    subst hr
+    have hle := loc_le_mr hI hs
+    exact ⟨Ext.refl hI, Or.inl hle, fun _ => hle, Nat.le_refl _⟩
+  · rw [h]
+    obtain ⟨hx, _, hdst, _, _⟩ := hE st reg ecnone0 hI hs htop (by rw [savereg_ecnone0]; exact Nat.le_refl _)
+    rw [savereg_ecnone0] at hdst
+    exact ⟨hx, Or.inl hdst, fun _ => hdst, Nat.le_succ _⟩
 
-theorem opndPost_of_expr (kmv : Bool) (e : Cond) (hE : ExprPost e) : OpndPost kmv e := by
-  by_cases he : isLeaf e = true
-  · exact opndPost_leaf kmv e he
-  intro st reg hI hs htop
-  have hsr : savereg ecnone0 reg ≤ reg := by rw [savereg_ecnone0]; exact Nat.le_refl _
-  obtain ⟨hx, hinc, hdst, _, hlast⟩ := hE st reg ecnone0 hI hs htop hsr
-  rw [savereg_ecnone0] at hdst
-  have key : withPropagation kmv e.isLogical (comp e (.expr reg ecnone0) st) reg =
-      ((comp e (.expr reg ecnone0) st).st, reg, reg + (comp e (.expr reg ecnone0) st).inc) := by
-    by_cases hlog : e.isLogical = true
-    · simp [withPropagation, hlog]
-    · have hlog' : e.isLogical = false := by simpa using hlog
-      have he' : isLeaf e = false := by simpa using he
-      simp only [withPropagation, hlog', Bool.false_eq_true, if_false]
-      exact propagate_lastOK _ _ _ _ _ (hlast he' hlog')
-  rw [key]
-  exact ⟨hx, Or.inl hdst, fun _ => hdst, by simp⟩
+/-- the two operands of a binary operator (`Lowering.bops` = `binOperands` on the two compile functions) -/
+theorem bops_post (l r : Cond) (hl : ExprPost l) (hr : ExprPost r) (st : CState) (reg : Nat)
+    (hI : Inv st) (hsl : LocalsBelow st.regTop l) (hsr : LocalsBelow st.regTop r) (htop : st.regTop ≤ reg) :
+    Ext st (bops l r st reg).1 ∧
+    RKR (bops l r st reg).1.consts.length (mr (bops l r st reg).1.code) (bops l r st reg).2.1 ∧
+    RKR (bops l r st reg).1.consts.length (mr (bops l r st reg).1.code) (bops l r st reg).2.2 := by
+  rw [bops_eq]
+  obtain ⟨hx1, hb1, _, hreg1⟩ := opr_post true l hl st reg hI hsl htop
+  obtain ⟨hx2, hb2, _, _⟩ := opr_post true r hr (opr true l reg st).1 (opr true l reg st).2.2 hx1.inv
+    (by rw [hx1.top]; exact hsr) (by rw [hx1.top]; omega)
+  exact ⟨hx1.trans hx2, hb1.mono hx2.consts.length_le hx2.mr_le, hb2⟩
 
-/-! ### `not` -/
+/-! ### unary operators: not, unary minus, length -/
+
+theorem unop_post (mk : Nat → Nat → Instr) (c : Cond) (hc : ExprPost c) (st : CState) (reg : Nat) (ec : ExpCtx)
+    (hI : Inv st) (hs : LocalsBelow st.regTop c) (htop : st.regTop ≤ reg)
+    (hiok : ∀ cs m a b, b ≤ m → IOK cs m (mk a b)) (hcnt : ∀ a b m, maxregOf (mk a b) m = max m a)
+    (hns : ∀ a b, isSkip (mk a b) = false) :
+    Ext st (unopExpr mk c.isLogical (fun s => comp c (.expr reg ecnone0) s) reg ec st).st ∧
+    (unopExpr mk c.isLogical (fun s => comp c (.expr reg ecnone0) s) reg ec st).inc = (if savereg ec reg < reg then 0 else 1) ∧
+    savereg ec reg ≤ mr (unopExpr mk c.isLogical (fun s => comp c (.expr reg ecnone0) s) reg ec st).st.code ∧
+    NoSkipLast (unopExpr mk c.isLogical (fun s => comp c (.expr reg ecnone0) s) reg ec st).st := by
+  obtain ⟨hx, _, hle, _⟩ := opr_post false c hc st reg hI hs htop
+  have hst : (unopExpr mk c.isLogical (fun s => comp c (.expr reg ecnone0) s) reg ec st).st =
+      emit (opr false c reg st).1 (mk (savereg ec reg) (opr false c reg st).2.1) := rfl
+  rw [hst]
+  refine ⟨hx.emit (hiok _ _ _ _ (hle rfl)), rfl, ?_, noSkipLast_emit _ _ (hns _ _)⟩
+  rw [mr_emit, hcnt]; omega
 
 theorem notExpr_post (c : Cond) (hc : ExprPost c) (st : CState) (reg : Nat) (ec : ExpCtx)
     (hI : Inv st) (hs : LocalsBelow st.regTop c) (htop : st.regTop ≤ reg) :
     Ext st (notExpr c (fun s => comp c (.expr reg ecnone0) s) reg ec st).st ∧
     (notExpr c (fun s => comp c (.expr reg ecnone0) s) reg ec st).inc = (if savereg ec reg < reg then 0 else 1) ∧
     savereg ec reg ≤ mr (notExpr c (fun s => comp c (.expr reg ecnone0) s) reg ec st).st.code ∧
-    NoSkipLast (notExpr c (fun s => comp c (.expr reg ecnone0) s) reg ec st).st ∧
-    LastOK (notExpr c (fun s => comp c (.expr reg ecnone0) s) reg ec st).st := by
+    NoSkipLast (notExpr c (fun s => comp c (.expr reg ecnone0) s) reg ec st).st := by
   have general : ∀ (_ : c ≠ .tru ∧ c ≠ .fls ∧ c ≠ .nil),
       notExpr c (fun s => comp c (.expr reg ecnone0) s) reg ec st =
-        { st := emit (withPropagation false c.isLogical (comp c (.expr reg ecnone0) st) reg).1
-                  (.not (savereg ec reg) (withPropagation false c.isLogical (comp c (.expr reg ecnone0) st) reg).2.1),
-          inc := if savereg ec reg < reg then 0 else 1 } := by
+        unopExpr .not c.isLogical (fun s => comp c (.expr reg ecnone0) s) reg ec st := by
     intro hne
-    cases c <;> simp_all [notExpr]
+    cases c <;> simp_all [notExpr, unopExpr]
   have hb : ∀ (x : Nat), Ext st (emit st (.loadbool (savereg ec reg) x 0)) ∧
       savereg ec reg ≤ mr (emit st (.loadbool (savereg ec reg) x 0)).code ∧
-      NoSkipLast (emit st (.loadbool (savereg ec reg) x 0)) ∧ LastOK (emit st (.loadbool (savereg ec reg) x 0)) := fun x =>
-    ⟨ext_emit hI (by simp [IOK]), by simp only [mr_emit, maxregOf, Instr.argA]; omega, noSkipLast_emit _ _ rfl, lastOK_emit_loadbool _ _ _ _⟩
+      NoSkipLast (emit st (.loadbool (savereg ec reg) x 0)) := fun x =>
+    ⟨ext_emit hI (by simp [IOK]), by simp only [mr_emit, maxregOf, Instr.argA]; omega, noSkipLast_emit _ _ rfl⟩
   by_cases h1 : c = .tru
-  · subst h1; obtain ⟨a, b, c', d⟩ := hb 0; exact ⟨a, rfl, b, c', d⟩
+  · subst h1; obtain ⟨a, b, c'⟩ := hb 0; exact ⟨a, rfl, b, c'⟩
   by_cases h2 : c = .fls
-  · subst h2; obtain ⟨a, b, c', d⟩ := hb 1; exact ⟨a, rfl, b, c', d⟩
+  · subst h2; obtain ⟨a, b, c'⟩ := hb 1; exact ⟨a, rfl, b, c'⟩
   by_cases h3 : c = .nil
-  · subst h3; obtain ⟨a, b, c', d⟩ := hb 1; exact ⟨a, rfl, b, c', d⟩
+  · subst h3; obtain ⟨a, b, c'⟩ := hb 1; exact ⟨a, rfl, b, c'⟩
   rw [general ⟨h1, h2, h3⟩]
-  obtain ⟨hx, _, hle, _⟩ := opndPost_of_expr false c hc st reg hI hs htop
-  refine ⟨hx.emit (hle rfl), rfl, ?_, noSkipLast_emit _ _ rfl, lastOK_emit_not _ _ _⟩
-  simp only [mr_emit, maxregOf, Instr.argA]; omega
+  exact unop_post .not c hc st reg ec hI hs htop (fun _ _ _ _ h => h) (fun _ _ _ => rfl) (fun _ _ => rfl)
+
+/-! ### arithmetic -/
+
+theorem arithExpr_post (folded : Option NumStruct.N) (op : ArithOp) (l r : Cond) (hl : ExprPost l) (hr : ExprPost r)
+    (st : CState) (reg : Nat) (ec : ExpCtx)
+    (hI : Inv st) (hsl : LocalsBelow st.regTop l) (hsr : LocalsBelow st.regTop r) (htop : st.regTop ≤ reg) :
+    Ext st (arithExpr folded op (fun s g => comp l (.expr g ecnone0) s) (fun s g => comp r (.expr g ecnone0) s)
+      l.isLogical r.isLogical reg ec st).st ∧
+    (arithExpr folded op (fun s g => comp l (.expr g ecnone0) s) (fun s g => comp r (.expr g ecnone0) s)
+      l.isLogical r.isLogical reg ec st).inc = (if savereg ec reg < reg then 0 else 1) ∧
+    savereg ec reg ≤ mr (arithExpr folded op (fun s g => comp l (.expr g ecnone0) s) (fun s g => comp r (.expr g ecnone0) s)
+      l.isLogical r.isLogical reg ec st).st.code ∧
+    NoSkipLast (arithExpr folded op (fun s g => comp l (.expr g ecnone0) s) (fun s g => comp r (.expr g ecnone0) s)
+      l.isLogical r.isLogical reg ec st).st := by
+  cases folded with
+  | some x => exact loadK_post _ st reg ec hI
+  | none =>
+    obtain ⟨hx, hb, hc⟩ := bops_post l r hl hr st reg hI hsl hsr htop
+    have hst : (arithExpr none op (fun s g => comp l (.expr g ecnone0) s) (fun s g => comp r (.expr g ecnone0) s)
+        l.isLogical r.isLogical reg ec st).st =
+        emit (bops l r st reg).1 (.arith op (savereg ec reg) (bops l r st reg).2.1 (bops l r st reg).2.2) := rfl
+    rw [hst]
+    refine ⟨hx.emit ⟨hb, hc⟩, rfl, ?_, noSkipLast_emit _ _ rfl⟩
+    simp only [mr_emit, maxregOf, Instr.argA]; omega
+
+/-! ### concatenation -/
+
+theorem popConcats_emit_concat (s' : CState) (a b c : Nat) (hne : s'.code ≠ []) (hnc : NoCat s'.code) :
+    popConcats (emit s' (.concat a b c)) = s' := by
+  unfold popConcats
+  simp only [emit_code]
+  rw [dropConcats_one _ _ _ _ hne hnc]
+  cases s'; rfl
+
+theorem popConcats_noCat (s : CState) (hnc : NoCat s.code) : popConcats s = s := by
+  unfold popConcats
+  rw [dropConcats_noCat _ _ hnc]
+
+theorem spine_notConcat (r : Cond) (h : isConcat r = false) : spine r = 0 := by
+  cases r <;> simp [isConcat] at h <;> rfl
+
+theorem concatExpr_post (l r : Cond) (hl : ExprPost l) (hr : ExprPost r) (st : CState) (reg : Nat) (ec : ExpCtx)
+    (hI : Inv st) (hsl : LocalsBelow st.regTop l) (hsr : LocalsBelow st.regTop r) (htop : st.regTop ≤ reg) :
+    ∃ s', (concatExpr (1 + spine r) (fun s g => comp l (.expr g ecnone0) s) (fun s g => comp r (.expr g ecnone0) s) reg ec st).st =
+        emit s' (.concat (savereg ec reg) reg (reg + (1 + spine r))) ∧
+      Ext st s' ∧ reg + (1 + spine r) ≤ mr s'.code ∧ NoCat s'.code ∧ s'.code ≠ [] := by
+  have hsv0 : ∀ g, savereg ecnone0 g ≤ g := fun g => by rw [savereg_ecnone0]; exact Nat.le_refl _
+  obtain ⟨hx1, hinc1, _, _, _⟩ := hl st reg ecnone0 hI hsl htop (hsv0 _)
+  have hinc1' : (comp l (.expr reg ecnone0) st).inc = 1 := by rw [hinc1, savereg_ecnone0]; simp
+  have hst : (concatExpr (1 + spine r) (fun s g => comp l (.expr g ecnone0) s) (fun s g => comp r (.expr g ecnone0) s) reg ec st).st =
+      emit (popConcats (comp r (.expr (reg + 1) ecnone0) (comp l (.expr reg ecnone0) st).st).st)
+        (.concat (savereg ec reg) reg (reg + (1 + spine r))) := by
+    simp only [concatExpr, hinc1']
+  rw [hst]
+  generalize comp l (.expr reg ecnone0) st = r1 at hx1 ⊢
+  have htop1 : r1.st.regTop ≤ reg + 1 := by rw [hx1.top]; omega
+  obtain ⟨hx2, _, hdst2, _, hcat2⟩ := hr r1.st (reg + 1) ecnone0 hx1.inv (by rw [hx1.top]; exact hsr) htop1 (hsv0 _)
+  rw [savereg_ecnone0] at hdst2
+  have hef := (comp_frame r).1 r1.st (reg + 1) ecnone0 htop1
+  cases hcr : isConcat r with
+  | true =>
+    obtain ⟨b, c, rfl⟩ : ∃ b c, r = .concat b c := by
+      cases r <;> simp [isConcat] at hcr
+      exact ⟨_, _, rfl⟩
+    obtain ⟨s2, hs2, hx2', hm2, hnc2, hne2⟩ := hcat2 b c rfl
+    rw [hs2, popConcats_emit_concat _ _ _ _ hne2 hnc2]
+    refine ⟨s2, rfl, hx1.trans hx2', ?_, hnc2, hne2⟩
+    simp only [spine] at hm2 ⊢
+    omega
+  | false =>
+    have hnc := hef.nocat hcr
+    rw [popConcats_noCat _ hnc, spine_notConcat r hcr]
+    refine ⟨_, rfl, hx1.trans hx2, by simpa using hdst2, hnc, ?_⟩
+    intro h0
+    have := hef.lt
+    rw [h0] at this
+    simp at this
 
 /-! ### relational operators -/
 
@@ -222,17 +319,9 @@ theorem relAux_post (l r : Cond) (hl : ExprPost l) (hr : ExprPost r) (st : CStat
     (hI : Inv st) (hsl : LocalsBelow st.regTop l) (hsr : LocalsBelow st.regTop r) (htop : st.regTop ≤ reg) (hf : flip ≤ 1) :
     ∃ s', relAux (fun s g => comp l (.expr g ecnone0) s) (fun s g => comp r (.expr g ecnone0) s)
             l.isLogical r.isLogical st reg op flip label = emit s' (.jmp (label : Int)) ∧ Ext st s' := by
-  obtain ⟨hx1, hb1, _, hreg1⟩ := opndPost_of_expr true l hl st reg hI hsl htop
-  generalize ho1 : withPropagation true l.isLogical (comp l (.expr reg ecnone0) st) reg = o1 at hx1 hb1 hreg1
-  obtain ⟨st1, b, reg1⟩ := o1
-  simp only at hx1 hb1 hreg1
-  obtain ⟨hx2, hb2, _, _⟩ := opndPost_of_expr true r hr st1 reg1 hx1.inv (by rw [hx1.top]; exact hsr) (by rw [hx1.top]; omega)
-  generalize ho2 : withPropagation true r.isLogical (comp r (.expr reg1 ecnone0) st1) reg1 = o2 at hx2 hb2
-  obtain ⟨st2, c, reg2⟩ := o2
-  simp only at hx2 hb2
-  refine ⟨emit st2 (relInstr op flip b c), ?_, ?_⟩
-  · simp only [relAux, ho1, ho2]
-  · exact (hx1.trans hx2).emit (iok_relInstr op hf (hb1.mono hx2.consts.length_le hx2.mr_le) hb2)
+  obtain ⟨hx, hb, hc⟩ := bops_post l r hl hr st reg hI hsl hsr htop
+  exact ⟨emit (bops l r st reg).1 (relInstr op flip (bops l r st reg).2.1 (bops l r st reg).2.2), rfl,
+    hx.emit (iok_relInstr op hf hb hc)⟩
 
 /-! ### the default case of compileLogicalOpExprAux -/
 
@@ -309,15 +398,25 @@ theorem logicalTail_post (st0 r2st s2 : CState) (t2 : Int) (b2 : Bool) (a : Nat)
       refine ⟨hxj.setLabelHere lb.e, ?_, noSkipLast_setLabelHere _ (noSkipLast_emit _ _ rfl)⟩
       simp only [setLabelHere_code, mr_emit, maxregOf]; exact ha
 
-/-! ### compileBranchCondition's default case on a leaf -/
+/-! ### compileBranchCondition's default case -/
+
+theorem bcDefault_post (e : Cond) (hE : ExprPost e) (hlog : e.isLogical = false) (st : CState) (reg flip L : Nat)
+    (hI : Inv st) (hs : LocalsBelow st.regTop e) (htop : st.regTop ≤ reg) :
+    Ext st (bcDefault (comp e (.expr reg ecnone0) st) reg flip L).st ∧
+    NoSkipLast (bcDefault (comp e (.expr reg ecnone0) st) reg flip L).st := by
+  have hst : (bcDefault (comp e (.expr reg ecnone0) st) reg flip L).st =
+      emit (emit (opr false e reg st).1 (.test (opr false e reg st).2.1 0 flip)) (.jmp L) := by
+    simp only [bcDefault, opr, hlog]
+  rw [hst]
+  obtain ⟨hx, _, hle, _⟩ := opr_post false e hE st reg hI hs htop
+  exact ⟨(hx.emit (i := .test _ 0 flip) (hle rfl)).emit (i := .jmp L) trivial, noSkipLast_emit _ _ rfl⟩
 
 theorem bcDefault_leaf_post (e : Cond) (he : isLeaf e = true) (st : CState) (reg flip L : Nat)
     (hI : Inv st) (hs : LocalsBelow st.regTop e) (htop : st.regTop ≤ reg) :
     Ext st (bcDefault (leafExpr e reg ecnone0 st) reg flip L).st ∧
     NoSkipLast (bcDefault (leafExpr e reg ecnone0 st) reg flip L).st := by
-  rw [bcDefault_leaf]
-  obtain ⟨hx, _, hle, _⟩ := opnd_leaf_post false e he st reg hI hs htop
-  exact ⟨(hx.emit (i := .test _ 0 flip) (hle rfl)).emit (i := .jmp L) trivial, noSkipLast_emit _ _ rfl⟩
+  rw [← comp_leaf_expr e he]
+  exact bcDefault_post e (exprPost_leaf e he) (isLogical_leaf e he) st reg flip L hI hs htop
 
 /-! ### leaves in compileLogicalOpExprAux -/
 
@@ -362,14 +461,34 @@ theorem subOK_leaf_loc (r : Nat) (st : CState) (reg : Nat) (hI : Inv st) (hr : r
   obtain ⟨h1, _, h3, _⟩ := leaf_post (.loc r) rfl st reg ec' hI hr
   exact ⟨h1, h3⟩
 
-theorem subOK_not (c : Cond) (hc : ExprPost c) (st : CState) (reg : Nat) (hI : Inv st) (hs : LocalsBelow st.regTop c)
-    (htop : st.regTop ≤ reg) :
-    SubOK (fun ec' s => notExpr c (fun s' => comp c (.expr reg ecnone0) s') reg ec' s) st reg := by
-  refine ⟨fun ec' _ => ?_, fun ec' => Or.inl ?_⟩
-  · obtain ⟨h1, _, h3, _⟩ := notExpr_post c hc st reg ec' hI hs htop
+/-- an expression that is neither a local nor a logical operator, compiled by compileExpr inside the default case -/
+theorem subOK_of_expr (e : Cond) (hE : ExprPost e) (hloc : isLoc e = false) (hlog : e.isLogical = false)
+    (st : CState) (reg : Nat) (hI : Inv st) (hs : LocalsBelow st.regTop e) (htop : st.regTop ≤ reg) :
+    SubOK (fun ec' s => comp e (.expr reg ec') s) st reg := by
+  refine ⟨fun ec' hsv => ?_, fun ec' => Or.inl ?_⟩
+  · obtain ⟨h1, _, h3, _⟩ := hE st reg ec' hI hs htop hsv
     exact ⟨h1, h3⟩
-  · obtain ⟨_, _, _, _, h5⟩ := notExpr_post c hc st reg ec' hI hs htop
-    exact h5.1
+  · exact ((comp_frame e).1 st reg ec' htop).nomove hloc hlog
+
+/-- compileLogicalOpExprAux's default case for such an expression -/
+theorem auxPost_of_expr (e : Cond) (hE : ExprPost e) (hloc : isLoc e = false) (hlog : e.isLogical = false)
+    (hcomp : ∀ (st : CState) (reg : Nat) (ec : ExpCtx) (thenl elsel : Nat) (hasnext : Bool) (lb : LbLabels) (b : Bool),
+      comp e (.aux reg ec thenl elsel hasnext lb b) st =
+        auxDefault (fun ec' s => comp e (.expr reg ec') s) reg ec thenl elsel hasnext lb b st) : AuxPost e := by
+  intro st reg ec thenl elsel hasnext lb b hI hs htop hsv
+  rw [hcomp]
+  obtain ⟨s', t, h1, h2, h3⟩ := auxDefault_post (fun ec' s => comp e (.expr reg ec') s) reg ec thenl elsel hasnext lb b st
+    (subOK_of_expr e hE hloc hlog st reg hI hs htop) hI hsv
+  exact ⟨s', t, h1, h2, fun a b c _ _ => ⟨fun _ => (h3 a b c).1, Or.inr (h3 a b c).2⟩⟩
+
+/-- compileBranchCondition's default case for such an expression -/
+theorem bcPost_of_expr (e : Cond) (hE : ExprPost e) (hlog : e.isLogical = false)
+    (hcomp : ∀ (st : CState) (reg thenl elsel : Nat) (hasnext : Bool),
+      comp e (.bc reg thenl elsel hasnext) st =
+        bcDefault (comp e (.expr reg ecnone0) st) reg (flipOf hasnext) (if hasnext then thenl else elsel)) : BcPost e := by
+  intro st reg thenl elsel hasnext hI hs htop _
+  rw [hcomp]
+  exact bcDefault_post e hE hlog st reg _ _ hI hs htop
 
 /-- value-context and/or (`compileLogicalOpExpr`), shared by `and` and `or`. -/
 theorem logical_expr_post (l r : Cond) (al : AuxPost l) (ar : AuxPost r) (st : CState) (reg : Nat) (ec : ExpCtx)
@@ -520,18 +639,59 @@ theorem comp_post : ∀ (e : Cond), ExprPost e ∧ AuxPost e ∧ BcPost e := by
       exact bcDefault_leaf_post (.ev id) rfl st reg _ _ hI hs htop
   | not c ih =>
     obtain ⟨ec', _, bc'⟩ := ih
-    refine ⟨fun st reg ec hI hs htop hsv => ?_, fun st reg ec thenl elsel hasnext lb b hI hs htop hsv => ?_,
-      fun st reg thenl elsel hasnext hI hs htop hns => ?_⟩
-    · simp only [comp]
-      obtain ⟨h1, h2, h3, h4, h5⟩ := notExpr_post c ec' st reg ec hI hs htop
-      exact ⟨h1, h2, h3, h4, fun _ _ => h5⟩
-    · simp only [comp]
-      obtain ⟨s', t, h1, h2, h3⟩ := auxDefault_post
-        (fun ec' s => notExpr c (fun s' => comp c (.expr reg ecnone0) s') reg ec' s) reg ec thenl elsel hasnext lb b st
-        (subOK_not c ec' st reg hI hs htop) hI hsv
-      exact ⟨s', t, h1, h2, fun a b c _ _ => ⟨fun _ => (h3 a b c).1, Or.inr (h3 a b c).2⟩⟩
-    · simp only [comp]
-      exact bc' st reg elsel thenl (!hasnext) hI hs htop hns
+    have hE : ExprPost (.not c) := by
+      intro st reg ec hI hs htop hsv
+      simp only [comp]
+      obtain ⟨h1, h2, h3, h4⟩ := notExpr_post c ec' st reg ec hI hs htop
+      exact ⟨h1, h2, h3, h4, fun l r h => by cases h⟩
+    refine ⟨hE, auxPost_of_expr _ hE rfl rfl (fun _ _ _ _ _ _ _ _ => rfl), fun st reg thenl elsel hasnext hI hs htop hns => ?_⟩
+    simp only [comp]
+    exact bc' st reg elsel thenl (!hasnext) hI hs htop hns
+  | arith op l r ihl ihr =>
+    obtain ⟨el, _, _⟩ := ihl
+    obtain ⟨er, _, _⟩ := ihr
+    have hE : ExprPost (.arith op l r) := by
+      intro st reg ec hI hs htop hsv
+      simp only [comp]
+      obtain ⟨h1, h2, h3, h4⟩ := arithExpr_post (lnum (.arith op l r)) op l r el er st reg ec hI hs.1 hs.2 htop
+      exact ⟨h1, h2, h3, h4, fun l r h => by cases h⟩
+    exact ⟨hE, auxPost_of_expr _ hE rfl rfl (fun _ _ _ _ _ _ _ _ => rfl), bcPost_of_expr _ hE rfl (fun _ _ _ _ _ => rfl)⟩
+  | unm c ih =>
+    obtain ⟨ec', _, _⟩ := ih
+    have hE : ExprPost (.unm c) := by
+      intro st reg ec hI hs htop hsv
+      simp only [comp, unmExpr]
+      cases lnum (.unm c) with
+      | some x =>
+        obtain ⟨h1, h2, h3, h4⟩ := loadK_post (.num x) st reg ec hI
+        exact ⟨h1, h2, h3, h4, fun l r h => by cases h⟩
+      | none =>
+        obtain ⟨h1, h2, h3, h4⟩ := unop_post .unm c ec' st reg ec hI hs htop (fun _ _ _ _ h => h) (fun _ _ _ => rfl) (fun _ _ => rfl)
+        exact ⟨h1, h2, h3, h4, fun l r h => by cases h⟩
+    exact ⟨hE, auxPost_of_expr _ hE rfl rfl (fun _ _ _ _ _ _ _ _ => rfl), bcPost_of_expr _ hE rfl (fun _ _ _ _ _ => rfl)⟩
+  | len c ih =>
+    obtain ⟨ec', _, _⟩ := ih
+    have hE : ExprPost (.len c) := by
+      intro st reg ec hI hs htop hsv
+      simp only [comp]
+      obtain ⟨h1, h2, h3, h4⟩ := unop_post .len c ec' st reg ec hI hs htop (fun _ _ _ _ h => h) (fun _ _ _ => rfl) (fun _ _ => rfl)
+      exact ⟨h1, h2, h3, h4, fun l r h => by cases h⟩
+    exact ⟨hE, auxPost_of_expr _ hE rfl rfl (fun _ _ _ _ _ _ _ _ => rfl), bcPost_of_expr _ hE rfl (fun _ _ _ _ _ => rfl)⟩
+  | concat l r ihl ihr =>
+    obtain ⟨el, _, _⟩ := ihl
+    obtain ⟨er, _, _⟩ := ihr
+    have hE : ExprPost (.concat l r) := by
+      intro st reg ec hI hs htop hsv
+      simp only [comp]
+      obtain ⟨s', hs', hx, hm, hnc, hne⟩ := concatExpr_post l r el er st reg ec hI hs.1 hs.2 htop
+      have hx' : Ext st (emit s' (.concat (savereg ec reg) reg (reg + (1 + spine r)))) :=
+        hx.emit (by simp only [IOK]; omega)
+      refine ⟨by rw [hs']; exact hx', rfl, ?_, by rw [hs']; exact noSkipLast_emit _ _ rfl, ?_⟩
+      · rw [hs']; simp only [mr_emit, maxregOf, Instr.argA]; omega
+      · intro l' r' h
+        cases h
+        exact ⟨s', hs', hx, hm, hnc, hne⟩
+    exact ⟨hE, auxPost_of_expr _ hE rfl rfl (fun _ _ _ _ _ _ _ _ => rfl), bcPost_of_expr _ hE rfl (fun _ _ _ _ _ => rfl)⟩
   | rel op l r ihl ihr =>
     obtain ⟨el, _, _⟩ := ihl
     obtain ⟨er, _, _⟩ := ihr
@@ -544,7 +704,7 @@ theorem comp_post : ∀ (e : Cond), ExprPost e ∧ AuxPost e ∧ BcPost e := by
       rw [he]
       have hx' := ((((hx0.trans hx).emit (i := .jmp (st.labelId : Int)) trivial).emit (i := .loadbool (savereg ec reg) 0 1) (by simp [IOK])).setLabelHere st.labelId).emit
         (i := .loadbool (savereg ec reg) 1 0) (by simp [IOK])
-      refine ⟨hx', by first | rfl | trivial, ?_, noSkipLast_emit _ _ rfl, fun _ _ => lastOK_emit_loadbool _ _ _ _⟩
+      refine ⟨hx', by first | rfl | trivial, ?_, noSkipLast_emit _ _ rfl, fun _ _ h => by cases h⟩
       simp only [mr_emit, maxregOf, Instr.argA]; omega
     · simp only [comp]
       by_cases h1 : thenl = elsel
@@ -575,7 +735,7 @@ theorem comp_post : ∀ (e : Cond), ExprPost e ∧ AuxPost e ∧ BcPost e := by
       fun st reg thenl elsel hasnext hI hs htop hns => ?_⟩
     · simp only [comp, newLabel]
       obtain ⟨h1, h2, h3⟩ := logical_expr_post l r al ar st reg ec hI hs.1 hs.2 htop hsv (st.labelId + 1 + 1 + 1) st.labelId false
-      exact ⟨h1, by first | rfl | trivial, h2, h3, fun _ h => by simp [Cond.isLogical] at h⟩
+      exact ⟨h1, by first | rfl | trivial, h2, h3, fun _ _ h => by cases h⟩
     · simp only [comp, newLabel]
       exact logical_aux_post l r al ar st reg ec thenl elsel hasnext lb b hI hs.1 hs.2 htop hsv st.labelId elsel false
     · simp only [comp, newLabel]
@@ -587,7 +747,7 @@ theorem comp_post : ∀ (e : Cond), ExprPost e ∧ AuxPost e ∧ BcPost e := by
       fun st reg thenl elsel hasnext hI hs htop hns => ?_⟩
     · simp only [comp, newLabel]
       obtain ⟨h1, h2, h3⟩ := logical_expr_post l r al ar st reg ec hI hs.1 hs.2 htop hsv st.labelId (st.labelId + 1 + 1 + 1) true
-      exact ⟨h1, by first | rfl | trivial, h2, h3, fun _ h => by simp [Cond.isLogical] at h⟩
+      exact ⟨h1, by first | rfl | trivial, h2, h3, fun _ _ h => by cases h⟩
     · simp only [comp, newLabel]
       exact logical_aux_post l r al ar st reg ec thenl elsel hasnext lb b hI hs.1 hs.2 htop hsv thenl st.labelId true
     · simp only [comp, newLabel]
